@@ -623,8 +623,10 @@ def materialize(race_case, root_dir, race_id, ts=RACE_TS):
     store.open(race_id, ts, trk.name, challenge.name, cfg.opts("mechanic", "car.names"))
 
     model = Model()
+    puts = {}  # task name -> the store calls for its records, in the order in which the task produces them
     for spec in race_case["tasks"]:
         name = spec["name"]
+        put = puts.setdefault(name, []).append
         m = {"spec": spec, "normal": {}, "warm": {}, "fail_n": [], "fail_w": [], "rel_n": [], "rel_w": [], "unit": {}}
         model.tasks[name] = m
         model.order.append(name)
@@ -646,7 +648,7 @@ def materialize(race_case, root_dir, race_id, ts=RACE_TS):
                 if metric in REQUEST_METRICS:
                     failed = fails(spec.get("fail_w") if warm else spec.get("fail_n"), i)
                     meta = {"success": not failed, "client_id": i % 3}
-                store.put_value_cluster_level(
+                put(dict(
                     name=metric,
                     value=v,
                     unit=unit,
@@ -657,19 +659,36 @@ def materialize(race_case, root_dir, race_id, ts=RACE_TS):
                     absolute_time=StaticClock.NOW + rel,
                     relative_time=rel,
                     meta_data=meta,
-                )
+                ))
                 if metric == "service_time" and spec.get("sub_requests"):
                     # a composite operation: the driver stores one more service_time record per sub-request under the same task name but
                     # with the sub-request's own operation and operation type; they are no samples of the task itself
-                    store.put_value_cluster_level(
+                    put(dict(
                         name=metric, value=v / 4 + 1, unit=unit, task=name, operation=f"{spec['op']}-sub", operation_type="open-point-in-time",
                         sample_type=st_type, absolute_time=StaticClock.NOW + rel, relative_time=rel, meta_data={"success": True, "client_id": i % 3},
-                    )
+                    ))
             if metric == "service_time":
                 m["fail_w"] = [fails(spec.get("fail_w"), i) for i in range(len(w))]
                 m["fail_n"] = [fails(spec.get("fail_n"), i) for i in range(len(n))]
                 m["rel_w"] = [(i + 1) * spec["dt"] for i in range(len(w))]
                 m["rel_n"] = [(len(w) + i + 1) * spec["dt"] for i in range(len(n))]
+
+    # the records of the tasks of a parallel element reach the store interleaved (the driver post-processes the samples of all running
+    # tasks together), those of consecutive elements one block after the other
+    names = [spec["name"] for spec in race_case["tasks"]]
+    for group in race_case["layout"]:
+        queues = [list(puts.pop(names[i], [])) for i in group]
+        k = 0
+        while any(queues):
+            for q in queues:
+                # (uneven strides, so that the blocks are not of one length)
+                for kw in q[: 1 + (k % 3)]:
+                    store.put_value_cluster_level(**kw)
+                del q[: 1 + (k % 3)]
+                k += 1
+    for rest in puts.values():
+        for kw in rest:
+            store.put_value_cluster_level(**kw)
 
     g = race_case.get("globals")
     model.globals = g
